@@ -189,8 +189,11 @@ CLAIMS: dict[str, tuple[str, str, str, str]] = {
         "The container rule blockquote is modelled too (line-table rewriting, end-of-quote scan with lazy lines and "
         "terminators, nested run, restore) and its contract proved by induction on the nesting budget (Props/C01c.lean), "
         "giving q_total: the sub-parser with block quotes nested to any depth returns normally for every source and "
-        "maxNesting (tie: `qblock`, 3k/80k documents). "
-        "MISSING: for the other rules (list, table, reference, html_block, lheading, most inline rules) the "
+        "maxNesting (tie: `qblock`, 3k/80k documents). The list rule likewise (markers, item loop, line-table rewrite and "
+        "restore, nested runs, empty-item workaround, tight paragraphs; Props/C01d.lean), giving l_total for the sub-parser "
+        "code/fence/blockquote/hr/list/heading/paragraph with quotes and lists nested in each other to any depth (tie: "
+        "`lblock`, 3.5k/100k documents). "
+        "MISSING: for the other rules (table, reference, html_block, lheading, most inline rules) the "
         "contracts stay hypotheses, monitored on every "
         "call of every real rule (harness/monitor.py, ~47k rule calls per quick run); renderer/CLI totality "
         "and the CPython stack limit by oracle (time-limited sweeps: random x configurations, bounded-exhaustive "
